@@ -7,6 +7,8 @@ use crate::{
     Difficulty,
 };
 
+pub use super::convert::verif::{find_available_column, ContainedColumns};
+
 use super::{
     convert,
     object::{ManiaObject, ObjectParams},
